@@ -155,40 +155,88 @@ def compile_once(repo, src, workdir, cfg, pert, _prior=False):
     cmd = ['sh', '-c', 'umask %03o; exec "$@"' % pert['umask'], 'sh'] + cmd
     stdio = pert.get('stdio', 'pipe')
     errtext = ''
+    # The compiler runs in a session of its own, so that on a time-out the whole group (a compiler that starts worker
+    # processes leaves them behind otherwise) can be killed; its output goes to files or to a pseudo-terminal.
+    outp, errp = os.path.join(workdir, 'stdout.txt'), os.path.join(workdir, 'stderr.txt')
+    master = slave = None
+    fo = fe = None
     try:
         if stdio == 'tty':
             import pty
             master, slave = pty.openpty()
-            try:
-                proc = subprocess.Popen(cmd, cwd=cwd, env=env, stdin=slave, stdout=slave, stderr=slave, close_fds=True)
-                os.close(slave)
-                chunks = []
-                while True:
-                    try:
-                        b = os.read(master, 65536)
-                    except OSError:
-                        break
-                    if not b:
-                        break
-                    chunks.append(b)
-                rc = proc.wait(timeout=600)
-                errtext = b''.join(chunks).decode('utf-8', 'replace')
-            finally:
-                os.close(master)
-        elif stdio == 'file':
-            with open(os.path.join(workdir, 'stdout.txt'), 'w') as fo, open(os.path.join(workdir, 'stderr.txt'), 'w') as fe:
-                rc = subprocess.run(cmd, cwd=cwd, env=env, stdin=subprocess.DEVNULL, stdout=fo, stderr=fe, timeout=600).returncode
-            with open(os.path.join(workdir, 'stderr.txt'), errors='replace') as fe:
-                errtext = fe.read()
+            proc = subprocess.Popen(cmd, cwd=cwd, env=env, stdin=slave, stdout=slave, stderr=slave, close_fds=True,
+                                    start_new_session=True)
+            os.close(slave)
+            slave = None
         elif stdio == 'null':
-            rc = subprocess.run(cmd, cwd=cwd, env=env, stdin=subprocess.DEVNULL, stdout=subprocess.DEVNULL,
-                                stderr=subprocess.DEVNULL, timeout=600).returncode
+            proc = subprocess.Popen(cmd, cwd=cwd, env=env, stdin=subprocess.DEVNULL, stdout=subprocess.DEVNULL,
+                                    stderr=subprocess.DEVNULL, start_new_session=True)
         else:
-            p = subprocess.run(cmd, cwd=cwd, env=env, stdout=subprocess.PIPE, stderr=subprocess.PIPE, text=True,
-                               timeout=600, errors='replace')
-            rc, errtext = p.returncode, p.stderr
-    except subprocess.TimeoutExpired:
-        raise K.HarnessError('tzcompiler did not finish within 600 s (cfg %s, perturbation %s)' % (cfg, pert))
+            # 'file', and 'pipe' as well: a pipe to the compiler's stdout / stderr that is drained by cat into the files
+            fo, fe = open(outp, 'wb'), open(errp, 'wb')
+            if stdio == 'pipe':
+                proc = subprocess.Popen(cmd, cwd=cwd, env=env, stdin=subprocess.DEVNULL, stdout=subprocess.PIPE,
+                                        stderr=subprocess.PIPE, start_new_session=True)
+            else:
+                proc = subprocess.Popen(cmd, cwd=cwd, env=env, stdin=subprocess.DEVNULL, stdout=fo, stderr=fe,
+                                        start_new_session=True)
+        deadline = time.time() + 600
+        chunks = []
+        timed_out = False
+        if stdio == 'tty':
+            import select
+            while True:
+                if time.time() > deadline:
+                    timed_out = True
+                    break
+                r, _w, _x = select.select([master], [], [], 1.0)
+                if not r:
+                    if proc.poll() is not None:
+                        break
+                    continue
+                try:
+                    b = os.read(master, 65536)
+                except OSError:
+                    break
+                if not b:
+                    break
+                chunks.append(b)
+            errtext = b''.join(chunks).decode('utf-8', 'replace')
+        elif stdio == 'pipe':
+            try:
+                so, se = proc.communicate(timeout=600)
+                errtext = se.decode('utf-8', 'replace')
+            except subprocess.TimeoutExpired:
+                timed_out = True
+        if not timed_out:
+            try:
+                rc = proc.wait(timeout=max(1, deadline - time.time()))
+            except subprocess.TimeoutExpired:
+                timed_out = True
+        if timed_out:
+            try:
+                os.killpg(proc.pid, 9)
+            except OSError:
+                pass
+            try:
+                proc.wait(timeout=10)
+            except Exception:
+                pass
+            raise K.HarnessError('tzcompiler did not finish within 600 s (cfg %s, perturbation %s)' % (cfg, pert))
+        if stdio in ('file',):
+            fe.flush()
+            with open(errp, errors='replace') as f2:
+                errtext = f2.read()
+    finally:
+        for fd in (master, slave):
+            if fd is not None:
+                try:
+                    os.close(fd)
+                except OSError:
+                    pass
+        for fh in (fo, fe):
+            if fh is not None:
+                fh.close()
     if rc != 0:
         raise K.HarnessError('tzcompiler failed (cfg %s, perturbation %s):\n%s' % (cfg, pert, errtext[-2000:]))
     files = {}
